@@ -26,37 +26,9 @@ fn config_for(p: &Program) -> Config {
     c
 }
 
-/// map a panic payload to the canonical `E …` line
+/// failure line: the first line of the panic payload, canonicalised by tools/corr.py
 pub fn canon_failure(msg: &str) -> String {
-    if let Some(rest) = msg.strip_prefix("deadlock! blocked tasks: [") {
-        // "<name> (task N[, detached][, pending future])", …
-        let mut items = Vec::new();
-        let mut s = rest;
-        while let Some(i) = s.find("(task ") {
-            let t = &s[i + 6..];
-            let close = t.find(')').unwrap_or(t.len());
-            let inner = &t[..close];
-            let mut parts = inner.split(", ");
-            let id = parts.next().unwrap_or("?").to_string();
-            let mut item = id;
-            for f in parts {
-                if f == "detached" {
-                    item.push_str(":d");
-                } else if f == "pending future" {
-                    item.push_str(":p");
-                }
-            }
-            items.push(item);
-            s = &t[close..];
-        }
-        return format!("E deadlock {}", items.join(","));
-    }
-    if let Some(rest) = msg.strip_prefix("exceeded max_steps bound ") {
-        let n: String = rest.chars().take_while(|c| c.is_ascii_digit()).collect();
-        return format!("E stepbound {}", n);
-    }
-    let first = msg.lines().next().unwrap_or("");
-    format!("E panic {}", first)
+    format!("E fail {}", msg.lines().next().unwrap_or(""))
 }
 
 fn payload_to_string(e: &Box<dyn std::any::Any + Send>) -> String {
